@@ -321,6 +321,10 @@ func decorate(x []byte) [][]byte {
 		cat("\x00", s), cat(s, "\x00"), cat(s, "\x1a"), cat(s, "\x7f"),
 		cat("\u200b", s), cat(s, "\u200b"), cat("\u00a0", s), cat(s, "\u00a0"), cat("\u2028", s), cat("\u200e", s), cat(s, "\u0301"),
 		cat("+", s), cat("-", s), cat("0", s), cat(s, "0"), cat("00", s),
+		// placeholder runes and escape conventions of other encoders / APIs: ordinary
+		// data wherever the symbology has no such function
+		cat("\u00f1", s), cat("\u00f2", s), cat("\u00f3", s), cat("\u00f4", s), cat(s, "\u00f1"), cat("\u00f1\u00f1", s), cat("\u00e8", s), cat("\u00e9", s), cat("\u00ea", s),
+		cat("\x1d", s), cat("\x1e", s), cat("\xe8", s), cat("\xf1", s), cat("\xc3\xb1", s, "\xc3"), cat("]d2", s), cat("]Q3", s), cat("]z0", s), cat("]L0", s), cat("\\", s), cat("^", s), cat("~", s), cat("%", s), cat("#", s), cat("{GS}", s),
 	}
 }
 
